@@ -135,7 +135,8 @@ let eval (line : string) : string =
       let r = op_marshal typed be (nat_of_int prefix) v in
       Printf.sprintf "%s buf=%s nfds=%d spec=%s encodable=%s" (if r.mt_ok then "ok" else "err") (hex_of_list r.mt_buf)
         (int_of_n r.mt_nfds) (hex_of_list r.mt_spec) (b2s r.mt_encodable)
-  | "RT" | "RP" | "RPR" | "RPX" ->
+  | "RT" | "RP" | "RPR" | "RPX" | "RV" | "RVR" | "RVX" ->
+      (* RV: params::Variant written and read through the typed API = the dynamic marshaller / decoder on the variant *)
       let typed = (op = "RT") in
       let e = if typed then parse_ety (next ()) else EBase BByte in
       let be = be_of (next ()) in
